@@ -13,6 +13,9 @@ structure D where
   blocked : Bool := false
   holds : List Nat := []
   obs : List String := []
+  loaded : Bool := false        -- does the program have a handle?
+  reloadLoaded : Bool := false
+  extraSwaps : Nat := 0
 
 def act (d : D) (a : Act) : D :=
   match step current d.s a with
@@ -40,7 +43,10 @@ def holderOf (l : Nat) : List VM → Option Nat
 def finishSwap (d : D) : D :=
   if d.blocked then
     match step current d.s .endSwap with
-    | some s' => tryHand { d with s := s', blocked := false, loadedVer := d.reloadVer }
+    | some s' =>
+      let d := { d with s := s', blocked := false, loadedVer := d.reloadVer, loaded := d.reloadLoaded }
+      let d := (List.range d.extraSwaps).foldl (fun d _ => act (act d .beginSwap) .endSwap) d
+      tryHand { d with extraSwaps := 0 }
     | none => d
   else d
 
@@ -53,21 +59,28 @@ def release (d : D) (l : Nat) : D :=
 def op (d : D) (o : String) : D :=
   match o.splitOn ":" with
   | ["w", k] => { d with fileVer := k.toNat! }
+  | ["rm"] => { d with fileVer := 0 }
   | ["load"] =>
     if d.fileVer = d.loadedVer then d
     else
+      -- an unload is a swap to a handle that is never given a line
       let d := act (act d .beginSwap) .endSwap
-      tryHand { d with loadedVer := d.fileVer }
+      tryHand { d with loadedVer := d.fileVer, loaded := d.fileVer != 0 }
   | ["hold", n] => { d with holds := n.toNat! :: d.holds }
-  | ["l", n] => tryHand (act d (.take n.toNat!))
+  | ["l", n] => if d.loaded || d.blocked then tryHand (act d (.take n.toNat!)) else d
   | ["rel", n] => release d n.toNat!
+  | ["lq", n] => if d.blocked then d else if d.loaded then tryHand (act d (.take n.toNat!)) else d
   | ["reload"] =>
-    if d.fileVer = d.loadedVer then { d with obs := d.obs ++ ["reload=returned"] }
+    if d.blocked then
+      -- queued behind the reload that is waiting for the old VM
+      { d with reloadVer := d.fileVer, reloadLoaded := d.fileVer != 0, extraSwaps := d.extraSwaps + 1,
+               obs := d.obs ++ ["reload=blocked"] }
+    else if d.fileVer = d.loadedVer then { d with obs := d.obs ++ ["reload=returned"] }
     else
       let d := act d .beginSwap
       match step current d.s .endSwap with
-      | some s' => tryHand { d with s := s', loadedVer := d.fileVer, obs := d.obs ++ ["reload=returned"] }
-      | none => { d with blocked := true, reloadVer := d.fileVer, obs := d.obs ++ ["reload=blocked"] }
+      | some s' => tryHand { d with s := s', loadedVer := d.fileVer, loaded := d.fileVer != 0, obs := d.obs ++ ["reload=returned"] }
+      | none => { d with blocked := true, reloadVer := d.fileVer, reloadLoaded := d.fileVer != 0, obs := d.obs ++ ["reload=blocked"] }
   | _ => d          -- wait, sync
 
 def handle (f : List String) : String :=
